@@ -15,9 +15,9 @@ def run(ctx):
     ctx.suites_run.append(oracles.SUITE)
     rng = ctx.rng
     n = 16 if not ctx.thorough else 80
-    ctx.rule("all exported optimizers × continuous tasks × population 1×/1.5×/2×/3× the documented scale (+0/+1/+3/+7 agents: sizes that are not multiples of group counts) × one algorithm parameter moved inside its validator range in half of the runs (plus a systematic sweep: every accepted candidate value of every algorithm parameter once) × cycle budgets 1..6 × seeds × serial/thread/process with 1..16 workers: "
+    ctx.rule("all exported optimizers × continuous tasks and low-cardinality discrete / binary tasks (identical individuals occur) × population 1×/1.5×/2×/3× the documented scale (+0/+1/+3/+7 agents: sizes that are not multiples of group counts) × one algorithm parameter moved inside its validator range in half of the runs (plus a systematic sweep: every accepted candidate value of every algorithm parameter once) × cycle budgets 1..6 × seeds × serial/thread/process with 1..16 workers: "
              "len(generation) for every generation; a case = one run; non-trivial = ≥ 2 generations")
-    js = jobs.make_jobs(rng, optimizers.names(), ["cont-sym", "cont", "cont-zero", "cont-scalars"], n,
+    js = jobs.make_jobs(rng, optimizers.names(), ["cont-sym", "cont", "cont-zero", "cont-scalars", "disc", "binary", "disc"], n,
                         modes=("serial", "serial", "thread", "process") if not ctx.thorough else ("serial", "thread", "process"),
                         max_cycles_choices=(1, 2, 3, 4, 6), pop_scales=(1, 1.5, 2, 3), pop_offsets=(0, 0, 1, 3, 7), vary_params=0.5, trace_events=False)
     # systematic sweep: every accepted value of every algorithm parameter once, at the documented population size
